@@ -123,6 +123,10 @@ type Rec struct {
 	Short  int
 	Err    error
 
+	// Transient: only the FailAt-th call fails; later calls are accepted again (a destination that
+	// recovers). Failed still records that the failure happened.
+	Transient bool
+
 	Failed     bool
 	AfterFail  int // bytes offered after the failure
 	CallsAfter int
@@ -138,12 +142,12 @@ func (r *Rec) err() error {
 }
 
 func (r *Rec) Write(p []byte) (int, error) {
-	if r.Failed {
+	if r.Failed && !r.Transient {
 		r.CallsAfter++
 		r.AfterFail += len(p)
 		return 0, r.err()
 	}
-	if r.FailAt >= 0 && len(r.Calls) == r.FailAt {
+	if r.FailAt >= 0 && len(r.Calls) == r.FailAt && !r.Failed {
 		r.Failed = true
 		n := r.Short
 		if n > len(p) {
